@@ -140,7 +140,7 @@ fn add<T: Chunky>(alpha_name: &str, alpha: Vec<T::Item>, depth: usize, judge: Ju
     Box::new(Bfs::new(ChunkAddSpec::<T> { prop: "C17", alpha_name: alpha_name.into(), alpha, judge }, depth))
 }
 fn trees<T: Chunky>(alpha_name: &str, alpha: Vec<T::Item>, max_len: usize, judge: Judge<T>) -> Box<dyn Check> {
-    Box::new(IntervalCheck::<T> { prop: "C17", alpha_name: alpha_name.into(), alpha, max_len, cap_per_word: 4_000, judge, extra: Box::new(|| Value::Null) })
+    Box::new(IntervalCheck::<T> { prop: "C17", alpha_name: alpha_name.into(), alpha, max_len, cap_per_word: word_cap(), judge, extra: Box::new(|| Value::Null) })
 }
 
 fn uni<T: Chunky<Item = f64>>(checks: &mut Vec<Box<dyn Check>>, q: bool) {
